@@ -76,6 +76,27 @@ def main(tier):
                 if p is None or p[1] > 1 or (p[1] == 1 and not p[2]) or ("Y" in units and "m" in units and p[0]["m"] >= 12):
                     rep.disagree("ddiff %s: months not below 12 under years, or more than one minus sign" % "".join(units),
                                  {"A": dc.text(pts[i], False), "B": dc.text(pts[j], False), "out": line})
+        # years with weeks and days (ISO week durations): weeks stay below 54 under years, days below 7 under weeks, one sign -- on pairs
+        # years apart incl. same week number with an earlier weekday (where the borrows chain); conservation itself is C05's Apply
+        ypts = [dc.point(ch, ch.ldn_of(*x)) for x in [(2020, 3, 6), (2021, 3, 9), (2015, 6, 19), (2018, 6, 18), (2004, 12, 31), (2009, 1, 1), (2010, 1, 3), (2012, 2, 29),
+                                                      (2016, 2, 29), (1999, 12, 27), (2026, 1, 1)]]
+        for units in (["Y", "w", "d"], ["Y", "w"], ["w", "d"], ["Y", "m", "w", "d"]):
+            res, bad = dc.run_matrix(ddiff, ypts, False, units)
+            nrun += len(ypts)
+            for (i, j), line in res.items():
+                p = dc.parse(line, units)
+                ok = p is not None and p[1] <= 1 and (p[1] == 0 or p[2])
+                if ok and "Y" in units and p[0]["w"] >= 54:
+                    ok = False
+                if ok and "w" in units and "d" in units and p[0]["d"] >= 7:
+                    ok = False
+                if ok and "m" in units and "Y" in units and p[0]["m"] >= 12:
+                    ok = False
+                if ok and "m" in units and p[0]["w"] >= 5:
+                    ok = False
+                if not ok:
+                    rep.disagree("ddiff %s: a refined unit outside its natural range, or more than one minus sign" % "".join(units),
+                                 {"A": dc.text(ypts[i], False), "B": dc.text(ypts[j], False), "out": line})
         # year/month specifiers next to fixed units, date-times less than four weeks apart (incl. identical ones): years and months are 0 and the
         # remaining components recombine to the whole duration
         base = ch.ldn_of(2020, 2, 29)
